@@ -377,6 +377,42 @@ def check_destroy_loop(run, db, dtor, base, bound, site_name):
                       site={'function': site_name, 'role': 'destroy constructed elements'})
 
 
+def guarded_from_entry(db, f, memo, depth=0):
+    """helper of joint_array working on already allocated space: every event of it that may throw happens while a
+    builder object of this function is alive (or inside a further helper for which the same holds)"""
+    if f.key in memo:
+        return memo[f.key]
+    memo[f.key] = False
+    if depth > 3:
+        return False
+    builders = set()
+    for e in f.events():
+        if e['ev'] == 'decl':
+            for v in e['vars']:
+                if cls_template(v['t']) == 'joint_array::builder':
+                    builders.add(v['did'])
+    try:
+        S = fwd.summarize(f, exceptional=True, db=db, inline_pred=lambda a, c, t: False)
+    except sym.PathLimit:
+        return False
+    okk = True
+    for s in S:
+        if s.throws is None:
+            continue
+        if s.end != 'propagate':
+            okk = False
+            continue
+        if any(u[1] in builders for u in s.unwinds):
+            continue
+        thrown = s.throws[2]
+        callee = db.fns.get(thrown.get('key')) if thrown.get('k') == 'call' else None
+        if callee is not None and callee.cls == f.cls and callee.key != f.key and guarded_from_entry(db, callee, memo, depth + 1):
+            continue
+        okk = False
+    memo[f.key] = okk
+    return okk
+
+
 def check_joint_array_ctors(run, db):
     n = 0
     for f in db.find(cls_t='joint_array', kind='ctor'):
@@ -390,8 +426,6 @@ def check_joint_array_ctors(run, db):
                 for v in e['vars']:
                     if cls_template(v['t']) == 'joint_array::builder':
                         builders[v['did']] = v
-        if not builders:
-            continue
         n += 1
         S = fwd.summarize(f, exceptional=True, db=db, inline_pred=lambda a, c, t: False)
         problems = []
@@ -430,7 +464,12 @@ def check_joint_array_ctors(run, db):
                 continue
             n_exc += 1
             if not any(u[1] in builders for u in s.unwinds):
-                problems.append('`%s` may throw while no builder guards the allocated space' % tstr(thrown)[:80])
+                # a helper of the same class may do the guarding itself: it must keep all of its own may-throw events under a builder
+                callee = db.fns.get(thrown.get('key')) if thrown.get('k') == 'call' else None
+                if callee is not None and callee.cls == f.cls and guarded_from_entry(db, callee, {}):
+                    pass
+                else:
+                    problems.append('`%s` may throw while no builder guards the allocated space' % tstr(thrown)[:80])
             if any(x[0] == 'this.size_' and x[1] not in ('0',) for x in s.writes if x[3] <= (s.throw_at_fwd or 0) and x[4] <= (s.throw_at_call or 0)):
                 problems.append('size_ is already non-zero when `%s` throws: the array destructor would destroy elements the builder also destroys' % tstr(thrown)[:60])
         if problems:
